@@ -527,7 +527,7 @@ func (ev *Ev) index(e *SExpr) *Val {
 	case KSlice:
 		i := ev.intTerm(e.Args[1])
 		et := under(base.T).(*types.Slice).Elem()
-		p := &Val{K: KPtr, T: types.NewPointer(et), X: base.X, Root: "S:" + tstr(et), Idx: Add(base.Off, i)}
+		p := &Val{K: KPtr, T: types.NewPointer(et), X: base.X, Root: "S:" + tstr(et), Idx: SliceIdx(base.Off, i)}
 		return ev.fr.load(ev.st, p, et)
 	case KMap:
 		k := ev.eval(e.Args[1])
@@ -603,7 +603,7 @@ func (ev *Ev) quant(e *SExpr) *Val {
 			case KPtr:
 				b := BoundVar(v.Name, SInt)
 				bvs = append(bvs, b)
-				guards = append(guards, Le(Num(0), b), Lt(b, ev.st.Alloc)) // allocated objects only
+				guards = append(guards, Lt(b, ev.st.Alloc)) // allocated objects only
 				env[v.Name] = mkPtr(t, b)
 			case KArr:
 				b := BoundVar(v.Name, sortOf(t))
@@ -612,7 +612,6 @@ func (ev *Ev) quant(e *SExpr) *Val {
 			case KIface, KMap:
 				b := BoundVar(v.Name, SInt)
 				bvs = append(bvs, b)
-				guards = append(guards, Le(Num(0), b))
 				env[v.Name] = &Val{K: kindOf(t), T: t, X: b}
 			case KStr:
 				b := BoundVar(v.Name, SStr)
@@ -849,6 +848,12 @@ func (ev *Ev) call(e *SExpr) *Val {
 		// lexicographic comparison of two byte strings, same abstraction as the model of bytes.Compare
 		x, y := ev.eval(args[0]), ev.eval(args[1])
 		return mathVal(ev.c.bytesCmp(ev.st, ev.viewOf(x), ev.viewOf(y)))
+	case "timenano":
+		v := ev.eval(args[0])
+		if v.K == KPtr {
+			v = ev.fr.load(ev.st, v, under(v.T).(*types.Pointer).Elem())
+		}
+		return mathVal(timeNano(v))
 	case "bytescmpv":
 		ev.c.orderAxioms()
 		return mathVal(App("bytes.cmp", SInt, ev.intTerm(args[0]), ev.intTerm(args[1])))
@@ -866,6 +871,17 @@ func (ev *Ev) call(e *SExpr) *Val {
 			specFail("bytesval of non-bytes")
 		}
 		return mathVal(App("bytesval", SInt, arr, off, ln))
+	case "slice":
+		// slice("[]T", arr, off, len): a slice value from its components (capacity = len)
+		if args[0].Kind != "str" {
+			specFail("slice(\"[]T\", arr, off, len)")
+		}
+		t := ev.c.resolveType(args[0].Name, ev.pkg)
+		if t == nil {
+			specFail("slice: unknown type %s", args[0].Name)
+		}
+		ln := ev.intTerm(args[3])
+		return &Val{K: KSlice, T: t, X: ev.intTerm(args[1]), Off: ev.intTerm(args[2]), Len: ln, Cap: ln}
 	case "iface":
 		if args[0].Kind != "str" {
 			specFail("iface(\"T\", id)")
@@ -1166,7 +1182,7 @@ func (c *Ctx) bytesCmp(st *State, x, y bview) *Term {
 		}
 	} else {
 		q := BoundVar("j", SInt)
-		same = And(Eq(x.ln, y.ln), Forall([]*Term{q}, Implies(And(Le(Num(0), q), Lt(q, x.ln)), Eq(Select(x.arr, Add(x.off, q)), Select(y.arr, Add(y.off, q))))))
+		same = And(Eq(x.ln, y.ln), Forall([]*Term{q}, Implies(And(Le(Num(0), q), Lt(q, x.ln)), Eq(Select(x.arr, SliceIdx(x.off, q)), Select(y.arr, SliceIdx(y.off, q))))))
 	}
 	c.addFact(Eq(Eq(r, Num(0)), same))
 	return r
